@@ -90,7 +90,8 @@ def timeout_cases(rng, n):
                       "stall_after": rng.choice([0, 1, 1, 2, 2, 3]), "p_close": 0.0, "p_call2": 0.0, "bsizes": [1, 2],
                       "managed": rng.random() < 0.5, "p_blocked_pull": 1.0, "cb_after_start": True,
                       "policy": "pull_first" if rng.random() < 0.7 else None,
-                      "sleep_before_first_pull": 2.4 if (tmo and i % 3 == 0) else None})
+                      "sleep_before_first_pull": 2.4 if (tmo and i % 3 == 0) else None,
+                      "nap_before_pulls": [2, 3] if (tmo and i % 3 == 1) else None})
     return cases
 
 
@@ -325,7 +326,7 @@ def oracle(run, profile_all=True):
             for e, obs_k, sn in zip(c["events"], [run["obs"][c["start"] + i] for i in range(len(c["events"]))], c["snaps"]):
                 if any(o[:2] == ["raised", "timeout"] for o in obs_k) and tmo and \
                         sn.get("timeout_elapsed") is not None and sn["timeout_elapsed"] < 0.75 * tmo:
-                    for tag in ("C04", "C01"):
+                    for tag in ("C04", "C01", "C16"):
                         bad.append((tag, "TimeoutError after the caller had waited only %.2f s for the result (timeout=%s s): the "
                                          "time a batch spent dispatched before anybody waited for it was counted, the call lost "
                                          "its results" % (sn["timeout_elapsed"], tmo)))
@@ -551,6 +552,9 @@ def standard_run(ctx, prop, profile):
     if profile == "c01":
         # a generous `timeout` must not change the results: batches that are old when the caller starts to wait
         extra = [dict(c, stall_after=None) for c in timeout_cases(ctx.rng, 9 if quick else 30) if c.get("sleep_before_first_pull")]
+    if profile == "c16":
+        # generators with a `timeout`: each wait of the consumer is bounded separately (naps between the requests)
+        extra = [c for c in timeout_cases(ctx.rng, 12 if quick else 40) if c.get("sleep_before_first_pull") or c.get("nap_before_pulls")]
     res = correspondence(ctx, profile, n, extra)
     mine = [(c, r, o) for c, r, o in res["oracle_failures"] if o[0] in (prop, "ALL")]
     others = [(c, r, o) for c, r, o in res["oracle_failures"] if o[0] not in (prop, "ALL")]
